@@ -9,565 +9,10 @@
 // Every wrapper case runs on a wrapper object that sits between two canary bytes in a packed cell
 // (so the object is misaligned and any write outside sizeof(T) bytes is visible); the prior state is
 // installed through the independent encoder, never through the code under test.
-#include <math.h>
-#include <string.h>
-
-#include <limits>
-#include <new>
-#include <string>
-#include <type_traits>
-#include <vector>
-
-#include "Encoding.hh"
-#include "vf.hh"
-
-using namespace phosg;
-
-namespace {
-
-enum Order { ORD_BE, ORD_LE };
-#if defined(__BYTE_ORDER__) && (__BYTE_ORDER__ == __ORDER_LITTLE_ENDIAN__)
-constexpr Order ORD_RE = ORD_BE;  // "reverse" of the host
-constexpr Order ORD_HOST = ORD_LE;
-#else
-constexpr Order ORD_RE = ORD_LE;
-constexpr Order ORD_HOST = ORD_BE;
-#endif
-const char* order_name(Order o) { return o == ORD_BE ? "big-endian" : "little-endian"; }
-
-template <size_t N> struct UIntFor;
-template <> struct UIntFor<1> { using type = uint8_t; };
-template <> struct UIntFor<2> { using type = uint16_t; };
-template <> struct UIntFor<4> { using type = uint32_t; };
-template <> struct UIntFor<8> { using type = uint64_t; };
-
-template <class T>
-__attribute__((always_inline)) inline uint64_t bits_of(T v) {
-  typename UIntFor<sizeof(T)>::type u;
-  memcpy(&u, &v, sizeof(T));
-  return u;
-}
-template <class T>
-__attribute__((always_inline)) inline T from_bits(uint64_t b) {
-  typename UIntFor<sizeof(T)>::type u = static_cast<typename UIntFor<sizeof(T)>::type>(b);
-  T v;
-  memcpy(&v, &u, sizeof(T));
-  return v;
-}
-
-// Independent encoder: value -> the integer whose in-memory image is the sizeof(T) bytes of the value
-// in the named order (compiler intrinsic, not phosg).
-template <class T>
-__attribute__((always_inline)) inline typename UIntFor<sizeof(T)>::type encode_u(T v, Order o) {
-  typename UIntFor<sizeof(T)>::type u;
-  memcpy(&u, &v, sizeof(T));
-  if (o != ORD_HOST) {
-    if constexpr (sizeof(T) == 2) u = __builtin_bswap16(u);
-    else if constexpr (sizeof(T) == 4) u = __builtin_bswap32(u);
-    else if constexpr (sizeof(T) == 8) u = __builtin_bswap64(u);
-  }
-  return u;
-}
-
-// Independent lane reversal of the low n bytes (byte loop; used for the bswap helpers).
-inline uint64_t rev_lanes(uint64_t v, int n) {
-  uint64_t r = 0;
-  for (int i = 0; i < n; i++) r |= ((v >> (8 * i)) & 0xFFull) << (8 * (n - 1 - i));
-  return r;
-}
-// Independent sign extension of the low `bits` bits to 64 bits (arithmetic, not mask-or).
-inline int64_t sext(uint64_t v, int bits) {
-  if (bits < 64) v &= (1ull << bits) - 1;
-  int64_t x = static_cast<int64_t>(v);
-  if (bits < 64 && ((v >> (bits - 1)) & 1)) x -= (static_cast<int64_t>(1) << bits);
-  return x;
-}
-
-std::string hexv(uint64_t b, size_t bytes) { return vf::fmt("0x%0*llX", (int)(bytes * 2), (unsigned long long)b); }
-std::string hexbytes(uint64_t img, size_t n) {
-  uint8_t p[8];
-  memcpy(p, &img, 8);  // host is little-endian or big-endian: the image was taken with memcpy of the low n bytes
-  if (ORD_HOST == ORD_BE) memmove(p, p + 8 - n, n);
-  std::string s;
-  for (size_t i = 0; i < n; i++) s += vf::fmt("%s%02X", i ? " " : "", p[i]);
-  return s;
-}
-
-enum Op {
-  OP_CTOR, OP_ASSIGN, OP_STORE,
-  OP_ADD, OP_SUB, OP_MUL, OP_DIV, OP_MOD, OP_AND, OP_OR, OP_XOR,
-  OP_SHL, OP_SHR,
-  OP_PREINC, OP_POSTINC, OP_PREDEC, OP_POSTDEC,
-  NOPS
-};
-// stable key stems (replay file names are derived from keys; punctuation would collide there)
-const char* op_key[NOPS] = {"ctor", "assign", "store", "add_assign", "sub_assign", "mul_assign", "div_assign", "mod_assign",
-    "and_assign", "or_assign", "xor_assign", "shl_assign", "shr_assign", "preinc", "postinc", "predec", "postdec"};
-const char* op_name[NOPS] = {"ctor", "operator=", "store", "operator+=", "operator-=", "operator*=", "operator/=", "operator%=",
-    "operator&=", "operator|=", "operator^=", "operator<<=", "operator>>=", "operator++()", "operator++(int)", "operator--()", "operator--(int)"};
-
-template <class W>
-struct __attribute__((packed)) Cell {
-  uint8_t pre;
-  W w;
-  uint8_t post;
-};
-
-const char* fail_kind(int f) {
-  switch (f) {
-    case 1: return "stored-value";
-    case 2: return "returned-value";
-    case 3: return "writes-outside-object";
-    default: return "returned-reference";
-  }
-}
-
-struct Obs {
-  int fail = 0;  // 0 ok, 1 stored value, 2 returned value, 3 wrote outside its bytes, 4 returned reference is not the object
-  bool skipped = false;
-  uint64_t want, want_ret, got_load, got_conv, got_ret, got_rawval;
-  uint64_t raw_img, want_raw_img;  // memory images (host integers) of the object bytes observed / expected
-  uint8_t pre, post;
-};
-
-// Compares everything observable about the wrapper with the native result.
-template <class W, class T>
-__attribute__((always_inline)) inline void finish(Cell<W>& c, Order o, T n, T ret_n, T ret_w, bool ref_ok, bool nan_relax, Obs& ob) {
-  using U = typename UIntFor<sizeof(T)>::type;
-  W& w = c.w;
-  T ld = w.load();
-  T cv = static_cast<T>(w);
-  if constexpr (std::is_floating_point_v<T>) {
-    // NaN produced by arithmetic: only NaN-ness is demanded (payload/sign of a computed NaN is not
-    // part of "what the operator yields"); a stored NaN (ctor/=/store) stays bit-exact.
-    if (nan_relax && n != n && ld != ld) n = ld;
-    if (nan_relax && ret_n != ret_n && ret_w != ret_w) ret_n = ret_w;
-  }
-  // everything is computed in locals; the observation record is only filled in for a failing case
-  uint64_t want = bits_of(n), want_ret = bits_of(ret_n), got_load = bits_of(ld), got_conv = bits_of(cv), got_ret = bits_of(ret_w);
-  U want_img = encode_u(n, o);
-  U raw_img;
-  memcpy(&raw_img, reinterpret_cast<const void*>(&w), sizeof(T));  // the object's bytes
-  auto rawv = w.load_raw();
-  static_assert(sizeof(rawv) == sizeof(T), "StoredT must have the size of ExposedT");
-  U rawv_img;
-  memcpy(&rawv_img, &rawv, sizeof(T));
-  int f;
-  if (c.pre != 0xC3 || c.post != 0x3C) f = 3;
-  else if (got_load != want || got_conv != want || raw_img != want_img || rawv_img != want_img) f = 1;
-  else if (got_ret != want_ret) f = 2;
-  else if (!ref_ok) f = 4;
-  else f = 0;
-  ob.fail = f;
-  if (__builtin_expect(f != 0, 0)) {
-    ob.want = want;
-    ob.want_ret = want_ret;
-    ob.got_load = got_load;
-    ob.got_conv = got_conv;
-    ob.got_ret = got_ret;
-    ob.raw_img = raw_img;
-    ob.want_raw_img = want_img;
-    ob.got_rawval = rawv_img;
-    ob.pre = c.pre;
-    ob.post = c.post;
-  }
-}
-
-template <class W, class T>
-__attribute__((always_inline)) inline void install(Cell<W>& c, Order o, T before) {
-  c.pre = 0xC3;
-  c.post = 0x3C;
-  auto img = encode_u(before, o);
-  memcpy(reinterpret_cast<void*>(&c.w), &img, sizeof(T));
-}
-
-// ctor / operator=(T) / store(T): prior state `prior`, new value `nv`.
-template <class W, class T>
-__attribute__((always_inline)) inline void run_assign(Cell<W>& c, Order o, int op, T prior, T nv, Obs& ob) {
-  ob.skipped = false;
-  install<W, T>(c, o, prior);
-  T ret_w = nv;
-  bool ref_ok = true;
-  switch (op) {
-    case OP_CTOR:
-      new (reinterpret_cast<void*>(&c.w)) W(nv);
-      break;
-    case OP_ASSIGN: {
-      auto&& rr = (c.w = nv);
-      ref_ok = (reinterpret_cast<const void*>(&rr) == reinterpret_cast<const void*>(&c.w));
-      ret_w = static_cast<T>(rr);
-      break;
-    }
-    default:
-      c.w.store(nv);
-      break;
-  }
-  finish<W, T>(c, o, nv, nv, ret_w, ref_ok, false, ob);
-}
-
-template <class T, class D>
-__attribute__((always_inline)) inline bool binop_defined(int op, T a, D d) {
-  if constexpr (std::is_floating_point_v<T>) {
-    return op == OP_ADD || op == OP_SUB || op == OP_MUL || op == OP_DIV;
-  } else {
-    using P = decltype(a + d);  // type the arithmetic is carried out in
-    P pa = static_cast<P>(a), pd = static_cast<P>(d), tmp;
-    switch (op) {
-      case OP_ADD: return std::is_unsigned_v<P> || !__builtin_add_overflow(pa, pd, &tmp);
-      case OP_SUB: return std::is_unsigned_v<P> || !__builtin_sub_overflow(pa, pd, &tmp);
-      case OP_MUL: return std::is_unsigned_v<P> || !__builtin_mul_overflow(pa, pd, &tmp);
-      case OP_DIV:
-      case OP_MOD:
-        if (pd == 0) return false;
-        if constexpr (std::is_signed_v<P>) {
-          if (pa == std::numeric_limits<P>::min() && pd == static_cast<P>(-1)) return false;
-        }
-        return true;
-      case OP_SHL:
-      case OP_SHR: return d >= 0 && static_cast<uint64_t>(d) < sizeof(T) * 8;
-      default: return true;
-    }
-  }
-}
-
-// x op= d on either a native T or a wrapper; returns the value of the expression.
-template <class T, class X, class D>
-__attribute__((always_inline)) inline T apply_binop(int op, X& x, D d, bool& ref_ok) {
-#define VF_BIN(OPTOK)                                                                              \
-  {                                                                                                \
-    auto&& rr = (x OPTOK d); /* auto&&: a by-value return still compiles and is judged */                                                                        \
-    ref_ok = (reinterpret_cast<const void*>(&rr) == reinterpret_cast<const void*>(&x));            \
-    return static_cast<T>(rr);                                                                     \
-  }
-  switch (op) {
-    case OP_ADD: VF_BIN(+=)
-    case OP_SUB: VF_BIN(-=)
-    case OP_MUL: VF_BIN(*=)
-    case OP_DIV: VF_BIN(/=)
-    default: break;
-  }
-  if constexpr (std::is_integral_v<T>) {
-    switch (op) {
-      case OP_MOD: VF_BIN(%=)
-      case OP_AND: VF_BIN(&=)
-      case OP_OR: VF_BIN(|=)
-      case OP_XOR: VF_BIN(^=)
-      case OP_SHL: VF_BIN(<<=)
-      case OP_SHR: VF_BIN(>>=)
-      default: break;
-    }
-  }
-#undef VF_BIN
-  __builtin_trap();
-}
-
-template <class W, class T, class D>
-__attribute__((always_inline)) inline void run_binop(Cell<W>& c, Order o, int op, T before, D d, Obs& ob) {
-  ob.skipped = false;
-  if (!binop_defined<T, D>(op, before, d)) {
-    ob.skipped = true;
-    ob.fail = 0;
-    return;
-  }
-  install<W, T>(c, o, before);
-  T n = before;
-  bool ref_n = true, ref_w = true;
-  T ret_n = apply_binop<T, T, D>(op, n, d, ref_n);
-  T ret_w = apply_binop<T, W, D>(op, c.w, d, ref_w);
-  finish<W, T>(c, o, n, ret_n, ret_w, ref_w, true, ob);
-}
-
-template <class T>
-__attribute__((always_inline)) inline bool incdec_defined(int op, T a) {
-  if constexpr (std::is_integral_v<T> && std::is_signed_v<T> && sizeof(T) >= sizeof(int)) {
-    if (op == OP_PREINC || op == OP_POSTINC) return a != std::numeric_limits<T>::max();
-    return a != std::numeric_limits<T>::min();
-  }
-  return true;
-}
-
-template <class W, class T>
-__attribute__((always_inline)) inline void run_incdec(Cell<W>& c, Order o, int op, T before, Obs& ob) {
-  ob.skipped = false;
-  if (!incdec_defined<T>(op, before)) {
-    ob.skipped = true;
-    ob.fail = 0;
-    return;
-  }
-  install<W, T>(c, o, before);
-  T n = before;
-  T ret_n, ret_w;
-  switch (op) {
-    case OP_PREINC: ret_n = ++n; ret_w = ++c.w; break;
-    case OP_POSTINC: ret_n = n++; ret_w = c.w++; break;
-    case OP_PREDEC: ret_n = --n; ret_w = --c.w; break;
-    default: ret_n = n--; ret_w = c.w--; break;
-  }
-  finish<W, T>(c, o, n, ret_n, ret_w, true, true, ob);
-}
-
-template <class T>
-std::string show_val(uint64_t bits) {
-  if constexpr (std::is_floating_point_v<T>) return vf::fmt("%s(%.9g)", hexv(bits, sizeof(T)).c_str(), (double)from_bits<T>(bits));
-  else if constexpr (std::is_signed_v<T>) return vf::fmt("%s(%lld)", hexv(bits, sizeof(T)).c_str(), (long long)from_bits<T>(bits));
-  else return hexv(bits, sizeof(T));
-}
-
-template <class T>
-std::string describe_head(const char* wname, Order o, int op, uint64_t before_bits, const std::string& operand, const Obs& ob) {
-  std::string s = vf::fmt("%s (%s %d-bit) holding %s: %s", wname, order_name(o), (int)sizeof(T) * 8, show_val<T>(before_bits).c_str(), op_name[op]);
-  if (!operand.empty()) s += " operand " + operand;
-  if (ob.skipped) return s + " [native result undefined: not compared]";
-  return s;
-}
-// full observation; only valid for a failing case (finish() fills the record only then)
-template <class T>
-std::string describe(const char* wname, Order o, int op, uint64_t before_bits, const std::string& operand, const Obs& ob) {
-  std::string s = describe_head<T>(wname, o, op, before_bits, operand, ob);
-  if (ob.skipped || !ob.fail) return s;
-  s += vf::fmt(" | native: value %s, expression yields %s | wrapper: load() %s, conversion %s, raw bytes [%s] (expected [%s]), load_raw() %s, expression yields %s, canaries %02X/%02X",
-      show_val<T>(ob.want).c_str(), show_val<T>(ob.want_ret).c_str(), show_val<T>(ob.got_load).c_str(), show_val<T>(ob.got_conv).c_str(),
-      hexbytes(ob.raw_img, sizeof(T)).c_str(), hexbytes(ob.want_raw_img, sizeof(T)).c_str(), hexv(ob.got_rawval, sizeof(T)).c_str(), show_val<T>(ob.got_ret).c_str(), ob.pre, ob.post);
-  return s;
-}
-
-struct Tally {
-  uint64_t ok[NOPS] = {0}, skipped[NOPS] = {0}, failed[NOPS][5] = {{0}};
-  // first failure of a kind goes through r.fail (describes the minimal case); repeats are only counted
-  template <class F>
-  inline void fail(vf::Run& r, int op, int kind, F&& describe_fn) {
-    if (failed[op][kind]++ == 0) r.fail(std::string(op_key[op]) + ":" + fail_kind(kind), describe_fn);
-  }
-  void flush(vf::Run& r, const char* prefix) {
-    for (int i = 0; i < NOPS; i++) {
-      for (int k = 0; k < 5; k++) {
-        if (failed[i][k] > 1) {
-          std::string key = std::string(op_key[i]) + ":" + fail_kind(k);
-          r.viol[key].count += failed[i][k] - 1;
-          r.hist["VIOLATION:" + key] += failed[i][k] - 1;
-        }
-      }
-    }
-    for (int i = 0; i < NOPS; i++) {
-      if (ok[i]) r.hist[std::string(prefix) + op_name[i] + ":equals-native"] += ok[i];
-      if (skipped[i]) r.hist[std::string(prefix) + op_name[i] + ":native-undefined(not compared)"] += skipped[i];
-    }
-  }
-};
-
-template <class T, class OperandFn>
-inline void account(vf::Run& r, Tally& t, int op, const Obs& ob, const char* wname, Order o, uint64_t before_bits, OperandFn&& operand_fn) {
-  if (ob.skipped) {
-    t.skipped[op]++;
-    return;
-  }
-  r.nontriv();
-  if (ob.fail) t.fail(r, op, ob.fail, [&] { return describe<T>(wname, o, op, before_bits, operand_fn(), ob); });
-  else t.ok[op]++;
-}
-
-// ---- value sets -------------------------------------------------------------------------------
-const uint8_t L9[9] = {0x00, 0x01, 0x7F, 0x80, 0xFF, 0x02, 0x81, 0xFE, 0xA5};
-const uint8_t L5[5] = {0x00, 0x01, 0x7F, 0x80, 0xFF};
-
-// all byte-lane combinations from `lanes` over `nbytes` bytes, then walking one / walking zero,
-// then the all-distinct pattern and its complement.  Simplest (all-zero) first.
-std::vector<uint64_t> lane_set(const uint8_t* lanes, size_t nl, int nbytes) {
-  std::vector<uint64_t> v;
-  uint64_t total = 1;
-  for (int i = 0; i < nbytes; i++) total *= nl;
-  v.reserve(total + 2 * nbytes * 8 + 2);
-  for (uint64_t k = 0; k < total; k++) {
-    uint64_t x = k, val = 0;
-    for (int i = 0; i < nbytes; i++) {
-      val |= static_cast<uint64_t>(lanes[x % nl]) << (8 * i);
-      x /= nl;
-    }
-    v.push_back(val);
-  }
-  uint64_t mask = nbytes == 8 ? ~0ull : ((1ull << (8 * nbytes)) - 1);
-  for (int b = 0; b < nbytes * 8; b++) v.push_back(1ull << b);
-  for (int b = 0; b < nbytes * 8; b++) v.push_back(~(1ull << b) & mask);
-  v.push_back(0x0102030405060708ull & mask);
-  v.push_back(~0x0102030405060708ull & mask);
-  return v;
-}
-
-template <class T>
-std::vector<T> typed(const std::vector<uint64_t>& bits) {
-  std::vector<T> v;
-  v.reserve(bits.size());
-  for (uint64_t b : bits) v.push_back(from_bits<T>(b));
-  return v;
-}
-
-// Integer wrapper driver: per-case take().
-template <class W, class T, class D>
-void drive_int(vf::Run& r, const char* wname, Order o, const std::vector<T>& values, const std::vector<T>& assign_values,
-    const std::vector<D>& operands, const std::vector<int>& shifts) {
-  r.note(wname);
-  Tally t;
-  Cell<W> cell;
-  Obs ob;
-  if (r.take()) {
-    if (r.wants_desc()) r.desc(vf::fmt("sizeof(%s) == sizeof(native) == %zu", wname, sizeof(T)));
-    r.nontriv();
-    if (sizeof(W) != sizeof(T) || sizeof(Cell<W>) != sizeof(T) + 2) r.fail("layout:sizeof", [&] { return vf::fmt("sizeof(%s) = %zu, packed cell = %zu, native = %zu", wname, sizeof(W), sizeof(Cell<W>), sizeof(T)); });
-    else r.ok("layout:sizeof-equals-native");
-  }
-  for (int op = OP_CTOR; op <= OP_STORE; op++) {
-    for (T nv : assign_values) {
-      if (!r.take()) continue;
-      T prior = from_bits<T>(~bits_of(nv));
-      run_assign<W, T>(cell, o, op, prior, nv, ob);
-      if (r.wants_desc()) r.desc(describe_head<T>(wname, o, op, bits_of(prior), show_val<T>(bits_of(nv)), ob));
-      account<T>(r, t, op, ob, wname, o, bits_of(prior), [&] { return std::string(show_val<T>(bits_of(nv))); });
-    }
-  }
-  for (int op = OP_ADD; op <= OP_XOR; op++) {
-    for (D d : operands) {
-      for (T v : values) {
-        if (!r.take()) continue;
-          run_binop<W, T, D>(cell, o, op, v, d, ob);
-        if (r.wants_desc()) r.desc(describe_head<T>(wname, o, op, bits_of(v), vf::fmt("%lld", (long long)d), ob));
-        account<T>(r, t, op, ob, wname, o, bits_of(v), [&] { return std::string(vf::fmt("%lld (0x%llX)", (long long)d, (unsigned long long)d)); });
-      }
-    }
-  }
-  for (int op = OP_SHL; op <= OP_SHR; op++) {
-    for (int d : shifts) {
-      for (T v : values) {
-        if (!r.take()) continue;
-          run_binop<W, T, int>(cell, o, op, v, d, ob);
-        account<T>(r, t, op, ob, wname, o, bits_of(v), [&] { return std::string(vf::fmt("%d", d)); });
-      }
-    }
-  }
-  for (int op = OP_PREINC; op <= OP_POSTDEC; op++) {
-    for (T v : values) {
-      if (!r.take()) continue;
-      run_incdec<W, T>(cell, o, op, v, ob);
-      account<T>(r, t, op, ob, wname, o, bits_of(v), [&] { return std::string(""); });
-    }
-  }
-  t.flush(r, (std::string(wname) + "/").c_str());
-}
-
-// Float wrapper driver.
-template <class W, class T>
-void drive_float(vf::Run& r, const char* wname, Order o, const std::vector<T>& values, const std::vector<T>& operands) {
-  r.note(wname);
-  Tally t;
-  Cell<W> cell;
-  Obs ob;
-  if (r.take()) {
-    r.nontriv();
-    if (sizeof(W) != sizeof(T) || sizeof(Cell<W>) != sizeof(T) + 2) r.fail("layout:sizeof", [&] { return vf::fmt("sizeof(%s) = %zu, packed cell = %zu, native = %zu", wname, sizeof(W), sizeof(Cell<W>), sizeof(T)); });
-    else r.ok("layout:sizeof-equals-native");
-  }
-  for (int op = OP_CTOR; op <= OP_STORE; op++) {
-    for (T nv : values) {
-      if (!r.take()) continue;
-      T prior = from_bits<T>(~bits_of(nv));
-      run_assign<W, T>(cell, o, op, prior, nv, ob);
-      if (r.wants_desc()) r.desc(describe_head<T>(wname, o, op, bits_of(prior), show_val<T>(bits_of(nv)), ob));
-      account<T>(r, t, op, ob, wname, o, bits_of(prior), [&] { return std::string(show_val<T>(bits_of(nv))); });
-    }
-  }
-  for (int op = OP_ADD; op <= OP_DIV; op++) {
-    for (T d : operands) {
-      for (T v : values) {
-        if (!r.take()) continue;
-          run_binop<W, T, T>(cell, o, op, v, d, ob);
-        account<T>(r, t, op, ob, wname, o, bits_of(v), [&] { return std::string(show_val<T>(bits_of(d))); });
-      }
-    }
-  }
-  for (int op = OP_PREINC; op <= OP_POSTDEC; op++) {
-    for (T v : values) {
-      if (!r.take()) continue;
-      run_incdec<W, T>(cell, o, op, v, ob);
-      account<T>(r, t, op, ob, wname, o, bits_of(v), [&] { return std::string(""); });
-    }
-  }
-  t.flush(r, (std::string(wname) + "/").c_str());
-}
-
-// Block driver (thorough): one case = 65 536 consecutive 32-bit patterns, 7 value-only operators each.
-template <class W, class T>
-void drive_block32(vf::Run& r, const char* wname, Order o) {
-  r.note(wname);
-  Tally t;
-  Cell<W> cell;
-  Obs ob;
-  for (uint32_t hi = 0; hi < 0x10000; hi++) {
-    if (!r.take()) continue;
-    if (r.wants_desc()) r.desc(vf::fmt("%s: ctor(+load/conversion/raw bytes), ++x, x++, --x, x-- on all 65536 bit patterns 0x%04X0000..0x%04XFFFF", wname, hi, hi));
-    uint64_t done = 0;
-    for (uint32_t lo = 0; lo < 0x10000; lo++) {
-      uint32_t bits = (hi << 16) | lo;
-      T v = from_bits<T>(bits);
-      T prior = from_bits<T>(~static_cast<uint64_t>(bits));
-      // operators spelled out with constant operator codes so the dispatch folds away
-#define C03_STEP(OP, CALL, BEFORE, OPERAND)                                                                     \
-  CALL;                                                                                                         \
-  if (ob.skipped) t.skipped[OP]++;                                                                              \
-  else {                                                                                                        \
-    done++;                                                                                                     \
-    if (ob.fail) t.fail(r, OP, ob.fail, [&] { return describe<T>(wname, o, OP, bits_of(BEFORE), OPERAND, ob); }); \
-    else t.ok[OP]++;                                                                                            \
-  }
-      C03_STEP(OP_CTOR, (run_assign<W, T>(cell, o, OP_CTOR, prior, v, ob)), prior, show_val<T>(bits))
-      C03_STEP(OP_PREINC, (run_incdec<W, T>(cell, o, OP_PREINC, v, ob)), v, std::string())
-      C03_STEP(OP_POSTINC, (run_incdec<W, T>(cell, o, OP_POSTINC, v, ob)), v, std::string())
-      C03_STEP(OP_PREDEC, (run_incdec<W, T>(cell, o, OP_PREDEC, v, ob)), v, std::string())
-      C03_STEP(OP_POSTDEC, (run_incdec<W, T>(cell, o, OP_POSTDEC, v, ob)), v, std::string())
-#undef C03_STEP
-    }
-    r.evals += done - 1;
-    r.nontrivial += done;
-  }
-  t.flush(r, (std::string(wname) + "/").c_str());
-}
-
-template <class T>
-std::vector<T> int_operands() {
-  std::vector<uint64_t> b = {0, 1, 2, 3, 7, 15, 0x7F, 0x80, 0xFF, 0x100, 0x7FFF, 0x8000, 0xFFFF};
-  if (sizeof(T) >= 4) {
-    b.insert(b.end(), {0x10000, 0x7FFFFFFFull, 0x80000000ull, 0xFFFFFFFFull});
-  }
-  if (sizeof(T) >= 8) {
-    b.insert(b.end(), {0x100000000ull, 0x7FFFFFFFFFFFFFFFull, 0x8000000000000000ull, 0xFFFFFFFFFFFFFFFFull});
-  }
-  std::vector<T> v;
-  for (auto x : b) v.push_back(from_bits<T>(x));
-  return v;
-}
-
-std::vector<float> f32_specials() {
-  std::vector<float> v = {0.0f, -0.0f, 1.0f, -1.0f, 0.5f, 1.5f, 2.0f, 3.0f, 0.1f, 2.6f, 16777215.0f, 16777216.0f, -16777216.0f, 1e10f, 1e-10f,
-      std::numeric_limits<float>::max(), std::numeric_limits<float>::lowest(), std::numeric_limits<float>::min(), std::numeric_limits<float>::denorm_min(),
-      std::numeric_limits<float>::infinity(), -std::numeric_limits<float>::infinity(), std::numeric_limits<float>::epsilon()};
-  return v;
-}
-std::vector<double> f64_specials() {
-  std::vector<double> v = {0.0, -0.0, 1.0, -1.0, 0.5, 1.5, 2.0, 3.0, 0.1, 3.1, 9007199254740991.0, 9007199254740992.0, -9007199254740992.0, 1e100, 1e-100,
-      std::numeric_limits<double>::max(), std::numeric_limits<double>::lowest(), std::numeric_limits<double>::min(), std::numeric_limits<double>::denorm_min(),
-      std::numeric_limits<double>::infinity(), -std::numeric_limits<double>::infinity(), std::numeric_limits<double>::epsilon()};
-  return v;
-}
-
-}  // namespace
+#include "C03_common.hh"
 
 // ---------------------------------------------------------------------------------------------
 // 16-bit wrappers: ALL 65 536 stored values x every operator x operand set, int operands.
-#define C03_W16(X)                      \
-  X(le_uint16_t, uint16_t, ORD_LE)      \
-  X(be_uint16_t, uint16_t, ORD_BE)      \
-  X(re_uint16_t, uint16_t, ORD_RE)      \
-  X(le_int16_t, int16_t, ORD_LE)        \
-  X(be_int16_t, int16_t, ORD_BE)        \
-  X(re_int16_t, int16_t, ORD_RE)
 
 VF_SECTION(w16, 16, 16, 120) {
   std::vector<int> operands = {0, 1, 2, 3, 7, 15, 0x7F, 0x80, 0xFF, 0x100, 0x7FFF, 0x8000, 0xFFFF, -1, -0x8000};
@@ -585,13 +30,6 @@ VF_SECTION(w16, 16, 16, 120) {
 }
 
 // 32-bit wrappers: lane set L9^4 + walking bits + all-distinct, operands of the exposed type.
-#define C03_W32(X)                      \
-  X(le_uint32_t, uint32_t, ORD_LE)      \
-  X(be_uint32_t, uint32_t, ORD_BE)      \
-  X(re_uint32_t, uint32_t, ORD_RE)      \
-  X(le_int32_t, int32_t, ORD_LE)        \
-  X(be_int32_t, int32_t, ORD_BE)        \
-  X(re_int32_t, int32_t, ORD_RE)
 
 VF_SECTION(w32, 16, 16, 120) {
   std::vector<int> shifts = {0, 1, 2, 3, 7, 8, 15, 16, 24, 31};
@@ -607,13 +45,6 @@ VF_SECTION(w32, 16, 16, 120) {
 }
 
 // 64-bit wrappers: L5^8 + walking bits + all-distinct.
-#define C03_W64(X)                      \
-  X(le_uint64_t, uint64_t, ORD_LE)      \
-  X(be_uint64_t, uint64_t, ORD_BE)      \
-  X(re_uint64_t, uint64_t, ORD_RE)      \
-  X(le_int64_t, int64_t, ORD_LE)        \
-  X(be_int64_t, int64_t, ORD_BE)        \
-  X(re_int64_t, int64_t, ORD_RE)
 
 VF_SECTION(w64, 16, 16, 120) {
   std::vector<int> shifts = {0, 1, 7, 8, 31, 32, 33, 56, 63};
@@ -692,266 +123,6 @@ VF_SECTION(w32all, 0, 16, 300) {
   drive_block32<le_float, float>(r, "le_float", ORD_LE);
   drive_block32<be_float, float>(r, "be_float", ORD_BE);
   r.bound = "6 wrapper types (le/be x u32/s32/float) x all 2^32 bit patterns x {ctor (with load/conversion/load_raw/raw bytes),++x,x++,--x,x--} (one indexed case = 65536 consecutive patterns)";
-}
-
-// ---------------------------------------------------------------------------------------------
-// bswap helpers, ext24/ext48, sign_extend
-namespace {
-
-struct FnTally {
-  std::map<std::string, uint64_t> n;
-  void flush(vf::Run& r) {
-    for (auto& [k, v] : n) r.hist[k] += v;
-  }
-};
-
-// one (function, input) check: `got` vs `want`, with an optional involution observation
-inline void judge(vf::Run& r, uint64_t& okc, const char* fn, const char* kind, bool bad, uint64_t in, uint64_t got, uint64_t want, const char* keyfn = nullptr) {
-  r.nontriv();
-  if (bad) r.fail(std::string(keyfn ? keyfn : fn) + ":" + kind, [&] { return vf::fmt("%s(0x%llX) = 0x%llX, expected 0x%llX", fn, (unsigned long long)in, (unsigned long long)got, (unsigned long long)want); });
-  else okc++;
-}
-
-template <class R, class S>
-void check_sign_extend(vf::Run& r, const char* name, const std::vector<uint64_t>& inputs) {
-  uint64_t okc = 0;
-  for (uint64_t in : inputs) {
-    if (!r.take()) continue;
-    S src = from_bits<S>(in);
-    R got = sign_extend<R, S>(src);
-    R want = static_cast<R>(sext(in, sizeof(S) * 8));
-    if (r.wants_desc()) r.desc(vf::fmt("%s(0x%llX)", name, (unsigned long long)in));
-    judge(r, okc, name, "wrong-value", bits_of(got) != bits_of(want), in, bits_of(got), bits_of(want), "sign_extend");
-  }
-  r.hist[std::string(name) + ":top-bit-replicated"] += okc;
-}
-
-void check_small(vf::Run& r) {
-  uint64_t ok16 = 0, ok8 = 0;
-  r.note("bswap16");
-  for (uint32_t v = 0; v < 0x10000; v++) {
-    if (!r.take()) continue;
-    uint16_t x = static_cast<uint16_t>(v);
-    uint16_t got = bswap16(x);
-    uint64_t want = rev_lanes(x, 2);
-    if (r.wants_desc()) r.desc(vf::fmt("bswap16(0x%04X)", v));
-    bool bad = got != want;
-    judge(r, ok16, "bswap16", "wrong-value", bad, v, got, want);
-    if (!bad) {
-      if (bswap16(got) != x) r.fail("bswap16:not-involution", [&] { return vf::fmt("bswap16(bswap16(0x%04X)) = 0x%04X", v, bswap16(got)); });
-      if (bswap<uint16_t>(x) != want || static_cast<uint16_t>(bswap<int16_t>(static_cast<int16_t>(x))) != want)
-        r.fail("bswap<16-bit>:wrong-value", [&] { return vf::fmt("bswap<uint16_t>(0x%04X) = 0x%04X, bswap<int16_t> = 0x%04X, expected 0x%04llX", v, bswap<uint16_t>(x), (uint16_t)bswap<int16_t>((int16_t)x), (unsigned long long)want); });
-    }
-  }
-  r.hist["bswap16:lanes-reversed+involution"] += ok16;
-  r.note("bswap8");
-  for (uint32_t v = 0; v < 0x100; v++) {
-    if (!r.take()) continue;
-    uint8_t x = static_cast<uint8_t>(v);
-    judge(r, ok8, "bswap8", "wrong-value", bswap8(x) != x || bswap<uint8_t>(x) != x || static_cast<uint8_t>(bswap<int8_t>(static_cast<int8_t>(x))) != x, v, bswap8(x), v);
-  }
-  r.hist["bswap8:identity"] += ok8;
-}
-
-// 32-bit helpers on one input; returns the key suffix of the first failure or nullptr
-inline const char* check32(uint32_t x, uint64_t& got, uint64_t& want) {
-  want = rev_lanes(x, 4);
-  uint32_t g = bswap32(x);
-  got = g;
-  if (g != want) return "bswap32:wrong-value";
-  if (bswap32(g) != x) { got = bswap32(g); want = x; return "bswap32:not-involution"; }
-  uint32_t g2 = bswap<uint32_t>(x);
-  if (g2 != want) { got = g2; return "bswap<32-bit>:wrong-value"; }
-  uint32_t g3 = static_cast<uint32_t>(bswap<int32_t>(static_cast<int32_t>(x)));
-  if (g3 != want) { got = g3; return "bswap<32-bit>:wrong-value"; }
-  // uint32 -> float: the float's bit pattern is the reversed input
-  float f = bswap32f(x);
-  if (bits_of(f) != want) { got = bits_of(f); return "bswap32f(uint32):wrong-value"; }
-  float f2 = bswap<uint32_t, float>(x);
-  if (bits_of(f2) != want) { got = bits_of(f2); return "bswap<uint32,float>:wrong-value"; }
-  // float -> uint32: reversed bit pattern of the float
-  float fx = from_bits<float>(x);
-  uint32_t u = bswap32f(fx);
-  if (u != want) { got = u; return "bswap32f(float):wrong-value"; }
-  uint32_t u2 = bswap<float, uint32_t>(fx);
-  if (u2 != want) { got = u2; return "bswap<float,uint32>:wrong-value"; }
-  // round trip float -> raw -> float is bit exact
-  float back = bswap32f(u);
-  if (bits_of(back) != x) { got = bits_of(back); want = x; return "bswap32f:not-involution"; }
-  // sign_extend from 32 bits
-  int64_t se = static_cast<int64_t>(static_cast<int32_t>(x));
-  uint64_t s1 = static_cast<uint64_t>(sign_extend<int64_t, uint32_t>(x));
-  uint64_t s2 = sign_extend<uint64_t, uint32_t>(x);
-  uint64_t s3 = static_cast<uint64_t>(sign_extend<int64_t, int32_t>(static_cast<int32_t>(x)));
-  want = static_cast<uint64_t>(sext(x, 32));
-  if (static_cast<uint64_t>(se) != want) __builtin_trap();  // the two reference formulations agree
-  if (s1 != want) { got = s1; return "sign_extend:wrong-value"; }
-  if (s2 != want) { got = s2; return "sign_extend:wrong-value"; }
-  if (s3 != want) { got = s3; return "sign_extend:wrong-value"; }
-  return nullptr;
-}
-
-}  // namespace
-
-VF_SECTION(bswap_small, 4, 4, 120) {
-  check_small(r);
-  std::vector<uint64_t> all8, all16;
-  for (uint32_t v = 0; v < 0x100; v++) all8.push_back(v);
-  for (uint32_t v = 0; v < 0x10000; v++) all16.push_back(v);
-  r.note("sign_extend");
-#define SE(R, S, SET) check_sign_extend<R, S>(r, "sign_extend<" #R "," #S ">", SET);
-  SE(int16_t, uint8_t, all8) SE(uint16_t, uint8_t, all8) SE(int32_t, uint8_t, all8) SE(uint32_t, uint8_t, all8) SE(int64_t, uint8_t, all8) SE(uint64_t, uint8_t, all8)
-  SE(int16_t, int8_t, all8) SE(uint16_t, int8_t, all8) SE(int32_t, int8_t, all8) SE(uint32_t, int8_t, all8) SE(int64_t, int8_t, all8) SE(uint64_t, int8_t, all8)
-  SE(int32_t, uint16_t, all16) SE(uint32_t, uint16_t, all16) SE(int64_t, uint16_t, all16) SE(uint64_t, uint16_t, all16)
-  SE(int32_t, int16_t, all16) SE(uint32_t, int16_t, all16) SE(int64_t, int16_t, all16) SE(uint64_t, int16_t, all16)
-#undef SE
-  r.bound = "bswap8: all 256; bswap16 + bswap<u16/s16>: all 65536; sign_extend<R,S>: all values of S in {int8,uint8,int16,uint16} x every strictly wider R in {16,32,64-bit signed/unsigned}";
-}
-
-VF_SECTION(bswap24, 16, 16, 120) {
-  uint64_t ok_b = 0, ok_s = 0, ok_e = 0, ok_g = 0;
-  r.note("bswap24");
-  for (uint32_t v = 0; v < 0x1000000; v++) {
-    if (!r.take()) continue;
-    if (r.wants_desc()) r.desc(vf::fmt("bswap24 / bswap24s / ext24 on 0x%06X", v));
-    uint64_t want = rev_lanes(v, 3);
-    uint32_t got = bswap24(v);
-    bool bad = got != want;
-    judge(r, ok_b, "bswap24", "wrong-value", bad, v, got, want);
-    if (!bad && bswap24(got) != v) r.fail("bswap24:not-involution", [&] { return vf::fmt("bswap24(bswap24(0x%06X)) = 0x%06X", v, bswap24(got)); });
-    // signed form: input given zero-extended and sign-extended (both denote the same 24-bit value)
-    int32_t wants = static_cast<int32_t>(sext(want, 24));
-    int32_t sx = static_cast<int32_t>(sext(v, 24));
-    int32_t gs1 = bswap24s(static_cast<int32_t>(v));
-    int32_t gs2 = bswap24s(sx);
-    bool bads = gs1 != wants || gs2 != wants;
-    judge(r, ok_s, "bswap24s", "wrong-value", bads, v, static_cast<uint32_t>(gs1 != wants ? gs1 : gs2), static_cast<uint32_t>(wants));
-    if (!bads && bswap24s(gs2) != sx) r.fail("bswap24s:not-involution", [&] { return vf::fmt("bswap24s(bswap24s(%d)) = %d", sx, bswap24s(gs2)); });
-    int32_t ge = ext24(v);
-    judge(r, ok_e, "ext24", "wrong-value", ge != sx, v, static_cast<uint32_t>(ge), static_cast<uint32_t>(sx));
-  }
-  // bits above bit 23 are ignored by bswap24 ("reverses the low 24 bits")
-  r.note("bswap24-high-garbage");
-  auto lanes = lane_set(L9, 9, 3);
-  static const uint32_t garbage[4] = {0x01000000u, 0x80000000u, 0xA5000000u, 0xFF000000u};
-  for (uint64_t l : lanes) {
-    for (uint32_t g : garbage) {
-      if (!r.take()) continue;
-      uint32_t in = static_cast<uint32_t>(l) | g;
-      uint64_t want = rev_lanes(l, 3);
-      uint32_t got = bswap24(in);
-      judge(r, ok_g, "bswap24", "high-bits-not-ignored", got != want, in, got, want);
-      int32_t gs = bswap24s(static_cast<int32_t>(in));
-      if (gs != static_cast<int32_t>(sext(want, 24))) r.fail("bswap24s:high-bits-not-ignored", [&] { return vf::fmt("bswap24s(0x%08X) = 0x%08X, expected 0x%08X", in, (uint32_t)gs, (uint32_t)sext(want, 24)); });
-    }
-  }
-  r.hist["bswap24:lanes-reversed+involution"] += ok_b;
-  r.hist["bswap24s:reversed+sign-extended+involution"] += ok_s;
-  r.hist["ext24:top-bit-replicated"] += ok_e;
-  r.hist["bswap24/24s:bits-above-23-ignored"] += ok_g;
-  r.bound = "bswap24, bswap24s (zero- and sign-extended argument), ext24: all 2^24 values; bswap24/24s with 4 garbage patterns above bit 23 x (L9^3 + walking + all-distinct)";
-}
-
-VF_SECTION(bswap32, 4, 4, 120) {
-  uint64_t okc = 0;
-  r.note("bswap32");
-  auto vals = lane_set(L9, 9, 4);
-  for (uint64_t v : vals) {
-    if (!r.take()) continue;
-    uint32_t x = static_cast<uint32_t>(v);
-    if (r.wants_desc()) r.desc(vf::fmt("bswap32 / bswap32f (both directions) / bswap<> / sign_extend<64,32> on 0x%08X", x));
-    uint64_t got = 0, want = 0;
-    const char* k = check32(x, got, want);
-    r.nontriv();
-    if (k) r.fail(k, [&] { return vf::fmt("%s: input 0x%08X: observed 0x%llX, expected 0x%llX", k, x, (unsigned long long)got, (unsigned long long)want); });
-    else okc++;
-  }
-  r.hist["32-bit helpers:all-laws-hold"] += okc;
-  r.bound = "bswap32, bswap32f(uint32), bswap32f(float), generic bswap<> forms, sign_extend<int64/uint64, uint32/int32>: L9^4 lane values + 64 walking-bit + 2 all-distinct";
-}
-
-VF_SECTION(bswap32all, 0, 16, 300) {
-  uint64_t okc = 0;
-  r.note("bswap32");
-  for (uint32_t hi = 0; hi < 0x10000; hi++) {
-    if (!r.take()) continue;
-    if (r.wants_desc()) r.desc(vf::fmt("32-bit helpers on all 65536 values 0x%04X0000..0x%04XFFFF", hi, hi));
-    for (uint32_t lo = 0; lo < 0x10000; lo++) {
-      uint32_t x = (hi << 16) | lo;
-      uint64_t got = 0, want = 0;
-      const char* k = check32(x, got, want);
-      if (k) r.fail(k, [&] { return vf::fmt("%s: input 0x%08X: observed 0x%llX, expected 0x%llX", k, x, (unsigned long long)got, (unsigned long long)want); });
-      else okc++;
-    }
-    r.evals += 0xFFFF;
-    r.nontrivial += 0x10000;
-  }
-  r.hist["32-bit helpers:all-laws-hold"] += okc;
-  r.bound = "bswap32, bswap32f (both directions), generic bswap<> forms, sign_extend<int64/uint64, uint32/int32>: all 2^32 values (one indexed case = 65536 values)";
-}
-
-VF_SECTION(bswap48_64, 8, 8, 120) {
-  uint64_t ok48 = 0, ok48s = 0, oke = 0, ok64 = 0, okg = 0;
-  r.note("bswap48");
-  auto v48 = lane_set(L5, 5, 6);
-  for (uint64_t v : v48) {
-    if (!r.take()) continue;
-    if (r.wants_desc()) r.desc(vf::fmt("bswap48 / bswap48s / ext48 on 0x%012llX", (unsigned long long)v));
-    uint64_t want = rev_lanes(v, 6);
-    uint64_t got = bswap48(v);
-    bool bad = got != want;
-    judge(r, ok48, "bswap48", "wrong-value", bad, v, got, want);
-    if (!bad && bswap48(got) != v) r.fail("bswap48:not-involution", [&] { return vf::fmt("bswap48(bswap48(0x%012llX)) = 0x%012llX", (unsigned long long)v, (unsigned long long)bswap48(got)); });
-    int64_t wants = sext(want, 48);
-    int64_t sx = sext(v, 48);
-    int64_t gs1 = bswap48s(static_cast<int64_t>(v));
-    int64_t gs2 = bswap48s(sx);
-    bool bads = gs1 != wants || gs2 != wants;
-    judge(r, ok48s, "bswap48s", "wrong-value", bads, v, static_cast<uint64_t>(gs1 != wants ? gs1 : gs2), static_cast<uint64_t>(wants));
-    if (!bads && bswap48s(gs2) != sx) r.fail("bswap48s:not-involution", [&] { return vf::fmt("bswap48s(bswap48s(%lld)) = %lld", (long long)sx, (long long)bswap48s(gs2)); });
-    r.note("ext48");
-    int64_t ge = ext48(v);
-    judge(r, oke, "ext48", "wrong-value", ge != sx, v, static_cast<uint64_t>(ge), static_cast<uint64_t>(sx));
-    r.note("bswap48");
-  }
-  static const uint64_t garbage[4] = {0x0001000000000000ull, 0x8000000000000000ull, 0xA5A5000000000000ull, 0xFFFF000000000000ull};
-  for (uint64_t l : v48) {
-    for (uint64_t g : garbage) {
-      if (!r.take()) continue;
-      uint64_t in = l | g;
-      uint64_t want = rev_lanes(l, 6);
-      uint64_t got = bswap48(in);
-      judge(r, okg, "bswap48", "high-bits-not-ignored", got != want, in, got, want);
-      int64_t gs = bswap48s(static_cast<int64_t>(in));
-      if (gs != sext(want, 48)) r.fail("bswap48s:high-bits-not-ignored", [&] { return vf::fmt("bswap48s(0x%016llX) = 0x%016llX, expected 0x%016llX", (unsigned long long)in, (unsigned long long)gs, (unsigned long long)sext(want, 48)); });
-    }
-  }
-  r.note("bswap64");
-  auto v64 = lane_set(L5, 5, 8);
-  for (uint64_t v : v64) {
-    if (!r.take()) continue;
-    uint64_t want = rev_lanes(v, 8);
-    uint64_t got = bswap64(v);
-    r.nontriv();
-    const char* k = nullptr;
-    uint64_t g = got;
-    if (got != want) k = "bswap64:wrong-value";
-    else if (bswap64(got) != v) { k = "bswap64:not-involution"; g = bswap64(got); }
-    else if ((g = bswap<uint64_t>(v)) != want || (g = static_cast<uint64_t>(bswap<int64_t>(static_cast<int64_t>(v)))) != want) k = "bswap<64-bit>:wrong-value";
-    else if ((g = bits_of(bswap64f(v))) != want) k = "bswap64f(uint64):wrong-value";
-    else if ((g = bits_of(bswap<uint64_t, double>(v))) != want) k = "bswap<uint64,double>:wrong-value";
-    else if ((g = bswap64f(from_bits<double>(v))) != want) k = "bswap64f(double):wrong-value";
-    else if ((g = bswap<double, uint64_t>(from_bits<double>(v))) != want) k = "bswap<double,uint64>:wrong-value";
-    else if ((g = bits_of(bswap64f(bswap64f(from_bits<double>(v))))) != v) k = "bswap64f:not-involution";
-    if (k) r.fail(k, [&] { return vf::fmt("%s: input 0x%016llX: observed 0x%016llX, lane-reversed input is 0x%016llX", k, (unsigned long long)v, (unsigned long long)g, (unsigned long long)want); });
-    else ok64++;
-  }
-  r.hist["bswap48:lanes-reversed+involution"] += ok48;
-  r.hist["bswap48s:reversed+sign-extended+involution"] += ok48s;
-  r.hist["ext48:top-bit-replicated"] += oke;
-  r.hist["bswap48/48s:bits-above-47-ignored"] += okg;
-  r.hist["64-bit helpers:all-laws-hold"] += ok64;
-  r.bound = "bswap48, bswap48s, ext48: L5^6 = 15625 lane values + 96 walking-bit + 2 all-distinct (+ 4 garbage patterns above bit 47 for bswap48/48s); bswap64, bswap64f (both directions), generic bswap<> forms: L5^8 = 390625 + 128 walking-bit + 2 all-distinct";
 }
 
 VF_MAIN()
